@@ -337,8 +337,7 @@ def c01_5(ctx):
 
 
 # ---------------------------------------------------------------------------------- C01.6 list termination
-def c01_6(ctx):
-    R = "C01.6"
+def c01_6(ctx, R="C01.6"):
     fb = ctx.fb
     # condition list: iterated with validation_error::next (rejects non-nil terminators)
     b = RG.parse_conditions_body(fb)
